@@ -1,6 +1,6 @@
 #!/usr/bin/env python3
 """Demonstrates that the binding binds: a recorded trace is accepted, and (1) corrupting one field of one event, (2) flipping a
-status, (3) dropping an entry, (4) truncating the trace file is rejected - by TLC, with the expected clause / a machinery error."""
+status, (3) dropping an entry, (4) an event TLC cannot evaluate is rejected - by TLC, with the expected clause - while the events behind it are still judged."""
 import copy, json, os, shutil, sys
 sys.path.insert(0, os.path.dirname(os.path.dirname(os.path.abspath(__file__))))
 from harness import common, tier as T
@@ -26,12 +26,9 @@ def main():
             print("rejected as expected:", name, "->", clause)
         # an unconsumed trace (schema violation: a field TLC needs is missing) is a machinery failure, never a pass
         bad = dict(ev, id=0); del bad["pre"]
-        try:
-            common.validate_traces("Trace_Tier", [bad], work)
-        except common.MachineryError:
-            print("rejected as expected: event without 'pre' -> machinery failure (trace not consumed)")
-        else:
-            raise AssertionError("a malformed trace was accepted")
+        v, _, _ = common.validate_traces("Trace_Tier", [bad, dict(ev, id=1)], work)
+        assert v.get(0) == ["NOT_EVALUABLE"] and 1 not in v, ("a malformed event must be rejected and the events behind it still judged", v)
+        print("rejected as expected: event without 'pre' -> NOT_EVALUABLE (counted as a violation), the next event is still judged")
         print("selftest ok")
         return 0
     finally:
